@@ -1,6 +1,7 @@
 import Pose.Model.Cloud
 import Proofs.Real
 import Proofs.Lemmas.Quat
+import Proofs.Lemmas.Batch
 import Mathlib.Data.List.Sort
 import Mathlib.Data.List.Perm.Basic
 import Mathlib.Data.List.Perm.Subperm
@@ -829,5 +830,217 @@ theorem pdist_full (o : Norm) (pd : Nat) (a b : Pt ℝ) (ha : a.length ≤ pd) (
 
 /-- intrinsics with a skew entry `s`: `[[fx,s,cx],[0,fy,cy],[0,0,1]]` -/
 def skewK (fx fy cx cy s : ℝ) : Mat3 ℝ := ⟨⟨fx, s, cx⟩, ⟨0, fy, cy⟩, ⟨0, 0, 1⟩⟩
+
+
+theorem resolvePdim_none_iff (pdim : Option Nat) (D : Nat) : resolvePdim pdim D = none ↔ ∃ p, pdim = some p ∧ D < p := by
+  unfold resolvePdim
+  cases pdim with
+  | none => simp
+  | some p => by_cases h : D < p <;> simp [h]
+
+theorem normRaises_iff (o : Norm) (pd : Nat) : normRaises o pd = true ↔ o = .linf ∧ pd = 0 := by
+  cases o <;> simp [normRaises]
+
+
+/-! ## audit round: the exact tie guard of knn_filter, the argsort stand-in, last-row intrinsics -/
+
+/-- the first `m` of a list sorted by `f`, when there is a strict gap after position `m`, are determined as a MULTISET:
+any sub-multiset of the list with the same `f`-values is a permutation of them -/
+theorem gap_perm {β : Type} (f : β → ℝ) (pts S L : List β) (m : Nat) (hS : S.Perm pts)
+    (hgap : ∀ a ∈ S.take m, ∀ b ∈ S.drop m, f a < f b)
+    (hL : L.Subperm pts) (hLf : L.map f = (S.take m).map f) : L.Perm (S.take m) := by
+  classical
+  have hlen : L.length = (S.take m).length := by
+    have := congrArg List.length hLf; simpa using this
+  apply List.Subperm.perm_of_length_le _ (le_of_eq hlen.symm)
+  rw [List.subperm_ext_iff]
+  intro x hx
+  -- x is not in the tail: its f-value is one of the head's values
+  have hfx : f x ∈ (S.take m).map f := by rw [← hLf]; exact List.mem_map.2 ⟨x, hx, rfl⟩
+  obtain ⟨a, ha, hfa⟩ := List.mem_map.1 hfx
+  have hnot : x ∉ S.drop m := fun hb => by
+    have := hgap a ha x hb
+    linarith
+  have h1 : List.count x L ≤ List.count x pts := hL.count_le x
+  have h2 : List.count x pts = List.count x (S.take m) + List.count x (S.drop m) := by
+    rw [← hS.count_eq, ← List.count_append, List.take_append_drop]
+  rw [List.count_eq_zero_of_not_mem hnot] at h2
+  omega
+
+/-- "no tie at the cut": the `m`-th and the `(m+1)`-th smallest distance from `p` differ (all other ties are allowed:
+lattices, symmetric clouds, duplicates inside the neighbourhood) -/
+def CutGap (o : Norm) (pdim m : Nat) (pts : List (Pt ℝ)) (p : Pt ℝ) : Prop :=
+  let S := pts.mergeSort fun a b => leB false (pdist o pdim p a) (pdist o pdim p b)
+  ∀ a ∈ S.take m, ∀ b ∈ S.drop m, pdist o pdim p a < pdist o pdim p b
+
+theorem idx_map_subperm {β : Type} (pts : List β) (d0 : β) (idx : List Nat) (hnd : idx.Nodup) (hin : ∀ i ∈ idx, i < pts.length) :
+    (idx.map fun i => pts.getD i d0).Subperm pts := by
+  have hsub : idx.Subperm (List.range pts.length) :=
+    List.subperm_of_subset hnd (fun i hi => by simpa using hin i hi)
+  obtain ⟨l, hl, hs⟩ := hsub
+  refine ⟨l.map fun i => pts.getD i d0, hl.map _, ?_⟩
+  have := hs.map (fun i => pts.getD i d0)
+  rwa [map_getD_range'] at this
+
+/-- the points selected by `topk(m)` on the distances from `p` are, as a multiset, the `m` nearest cloud points -/
+theorem topk_points_gap (topk : Bool → List ℝ → Nat → List Nat) (htk : TopkContract topk) (o : Norm) (pdim m : Nat) (pts : List (Pt ℝ)) (p : Pt ℝ)
+    (hm : m ≤ pts.length) (hg : CutGap o pdim m pts p) :
+    ((topk false (pts.map (pdist o pdim p)) m).map fun i => pts.getD i []).Perm (nearest o pdim m pts p) := by
+  set f := pdist o pdim p
+  have h := htk false (pts.map f) m (by simpa using hm)
+  have hin : ∀ i ∈ topk false (pts.map f) m, i < pts.length := fun i hi => by simpa using h.inb i hi
+  unfold nearest
+  apply gap_perm f pts _ _ m (List.mergeSort_perm _ _) hg (idx_map_subperm pts [] _ h.nodup hin)
+  rw [List.map_take, map_sort_key, ← h.values, List.map_map]
+  apply List.map_congr_left
+  intro i hi
+  simp only [Function.comp]
+  rw [List.getD_eq_getElem _ _ (hin i hi), List.getD_eq_getElem _ _ (by simpa using hin i hi)]
+  simp
+
+/-- the `m` nearest points of a re-ordered cloud are a permutation of the `m` nearest of the original one -/
+theorem nearest_perm_gap (o : Norm) (pdim m : Nat) {pts pts' : List (Pt ℝ)} (hp : pts.Perm pts') (p : Pt ℝ)
+    (hg : CutGap o pdim m pts p) : (nearest o pdim m pts' p).Perm (nearest o pdim m pts p) := by
+  set f := pdist o pdim p
+  unfold nearest
+  apply gap_perm f pts _ _ m (List.mergeSort_perm _ _) hg
+  · exact ((List.take_sublist _ _).subperm).trans ((List.mergeSort_perm _ _).trans hp.symm).subperm
+  · rw [List.map_take, List.map_take, map_sort_key, map_sort_key, sortVals_congr false (hp.symm.map f)]
+
+/-- the driver's `argsort` stand-in (positions of the stable merge sort) meets the contract -/
+theorem argsortStd_contract : ArgsortContract argsortStd := by
+  intro xs
+  unfold argsortStd
+  set le2 : ℕ × ℕ → ℕ × ℕ → Bool := fun a b => decide (a.1 ≤ b.1) with hle2
+  set P := xs.zipIdx.mergeSort le2 with hP
+  have hPperm : P.Perm xs.zipIdx := List.mergeSort_perm _ _
+  have hPsorted : P.Pairwise (fun a b => le2 a b = true) :=
+    List.pairwise_mergeSort (le := le2) (fun a b c h1 h2 => by simp only [hle2, decide_eq_true_eq] at *; omega)
+      (fun a b => by simp only [hle2, Bool.or_eq_true, decide_eq_true_eq]; omega) _
+  have hkey : ∀ p ∈ P, xs.getD p.2 0 = p.1 := by
+    intro p hp
+    have := List.mem_zipIdx_iff_getElem?.1 (hPperm.subset hp)
+    rw [List.getD_eq_getElem?_getD, this]; rfl
+  constructor
+  · have := hPperm.map Prod.snd
+    rwa [List.zipIdx_map_snd, ← List.range_eq_range'] at this
+  · rw [List.map_map, List.pairwise_map]
+    refine hPsorted.imp_of_mem ?_
+    intro a b ha hb hab
+    simp only [Function.comp, hkey a ha, hkey b hb]
+    simpa [hle2] using hab
+
+/-- intrinsics whose last row is `(0, 0, w)` -/
+def lastRowK (fx fy cx cy w : ℝ) : Mat3 ℝ := ⟨⟨fx, 0, cx⟩, ⟨0, fy, cy⟩, ⟨0, 0, w⟩⟩
+
+
+/-! ## definitional facts and restatements (moved out of `Proofs/Props/C18.lean` after the audit)
+
+These are consequences of the model's shape alone (a `map`, an `if`, `rfl`): they are NOT statements about a code path.
+That a failing call is atomic, that the grad mode is irrelevant, that a batched call takes no batch-level decision, that a
+history is stateless are **decided by the correspondence streams** (`hist`, `seq`, item-wise oracles, purity monitor); the
+lemmas below only record what the streams compare with. -/
+
+section restated
+variable (topk topk' : Bool → List ℝ → Nat → List Nat)
+
+/-- `knn` returns a result exactly when `k ≤ N2` (otherwise `topk` raises), one row per reference point. -/
+theorem knn_defined (o : Norm) (lg : Bool) (kk : Nat) (ref nbr : List (Pt ℝ)) :
+    (kk ≤ nbr.length → knn topk o lg kk ref nbr = some (ref.map (knnRow topk o lg kk nbr))) ∧
+    (nbr.length < kk → knn topk o lg kk ref nbr = none) := by
+  unfold knn
+  constructor
+  · intro h; rw [if_neg (by omega)]
+  · intro h; rw [if_pos h]
+
+
+/-- **knn, permutation of the reference cloud**: rows are computed point by point, so they are permuted along. -/
+theorem knn_perm_ref (o : Norm) (lg : Bool) (kk : Nat) {ref ref' : List (Pt ℝ)} (nbr : List (Pt ℝ))
+    (hp : ref.Perm ref') :
+    (ref.map (knnRow topk o lg kk nbr)).Perm (ref'.map (knnRow topk o lg kk nbr)) := hp.map _
+
+
+/-- the mask returned with `return_mask=True` marks exactly those points -/
+theorem nbr_filter_mask (o : Norm) (pdim : Nat) (r : ℝ) (n : ℤ) (pts : List (Pt ℝ)) :
+    nbrMask o pdim r n pts = pts.map (fun p => decide (n ≤ nbrCount o pdim r pts p)) ∧
+    nbrFilter o pdim r n pts = selectMask pts (nbrMask o pdim r n pts) := ⟨rfl, rfl⟩
+
+
+/-- the retained points: all of them without a radius; with a radius `r ≥ 0` exactly those with at least `k`
+other points within `r` (same predicate as `nbr_filter`), in input order -/
+theorem knn_filter_retained (o : Norm) (pdim kk : Nat) (pts : List (Pt ℝ)) :
+    knnRetained o pdim kk none pts = pts ∧
+    ∀ r : ℝ, knnRetained o pdim kk (some r) pts = nbrFilter o pdim r (kk : ℤ) pts := ⟨rfl, fun _ => rfl⟩
+
+
+/-- `knn_filter` raises exactly when the cloud has fewer than `k+1` points (no `k` neighbours exist). -/
+theorem knn_filter_defined (o : Norm) (pdim kk : Nat) (radius : Option ℝ) (pts : List (Pt ℝ)) :
+    (knnFilter topk o pdim kk radius pts = none ↔ pts.length < kk + 1) := by
+  unfold knnFilter
+  by_cases h : pts.length < kk + 1 <;> simp [h]
+
+
+/-- the failed `assert num <= N` -/
+theorem random_filter_defined (perm : List Nat) (num : Nat) (pts : List (Pt ℝ)) :
+    randomFilter perm num pts = none ↔ pts.length < num := by
+  unfold randomFilter
+  by_cases h : pts.length < num <;> simp [h]
+
+
+/-- extrinsics only move the point into the camera frame first -/
+theorem point2pixel_ext (tiny : ℝ) (K : Mat3 ℝ) (X : SE3 ℝ) (p : Vec3 ℝ) :
+    point2pixel tiny K (some X) p = point2pixel tiny K none (SE3Act X p) := rfl
+
+
+/-- **statelessness of a call history**: the result of a call is `evalCall` of ITS OWN arguments — the values its
+tensors hold at that moment — whatever was called before or after it on whatever objects. -/
+theorem history_stateless (tr : ℝ → Int) (uniq : List (List Int) → List (List Int)) (h₁ h₂ : List (Call ℝ)) (c : Call ℝ) :
+    (runHistory topk tr uniq (h₁ ++ c :: h₂))[h₁.length]? = some (evalCall topk tr uniq c) := by
+  simp [runHistory]
+
+
+/-- a history in another order gives the same results in that order -/
+theorem history_perm (tr : ℝ → Int) (uniq : List (List Int) → List (List Int)) {h h' : List (Call ℝ)} (hp : h.Perm h') :
+    (runHistory topk tr uniq h).Perm (runHistory topk tr uniq h') := hp.map _
+
+
+/-- **error paths are atomic / copies are independent / grad mode is irrelevant** — all three are the purity of the
+model: the results of a history with one more call `c` inserted anywhere (a call that fails, `evalCall … c = none`, a call
+on a copy, the same call in another grad mode) are the results of the history without it, plus `c`'s own result at its
+place. -/
+theorem history_atomic (tr : ℝ → Int) (uniq : List (List Int) → List (List Int)) (h₁ h₂ : List (Call ℝ)) (c : Call ℝ) :
+    runHistory topk tr uniq (h₁ ++ c :: h₂)
+      = runHistory topk tr uniq h₁ ++ evalCall topk tr uniq c :: runHistory topk tr uniq h₂ ∧
+    (runHistory topk tr uniq (h₁ ++ c :: h₂)).eraseIdx h₁.length = runHistory topk tr uniq (h₁ ++ h₂) := by
+  have e : runHistory topk tr uniq (h₁ ++ c :: h₂)
+      = runHistory topk tr uniq h₁ ++ evalCall topk tr uniq c :: runHistory topk tr uniq h₂ := by
+    simp [runHistory]
+  refine ⟨e, ?_⟩
+  rw [e]
+  have hl : (runHistory topk tr uniq h₁).length = h₁.length := by simp [runHistory]
+  rw [← hl, List.eraseIdx_append_of_length_le (Nat.le_refl _)]
+  simp [runHistory]
+
+
+/-- **item-wise = batched**: item `b` of a batched `knn_filter` / `knn` call is the call on item `b` alone, whatever the
+other items of the batch are (no batch-level decision). -/
+theorem batched_itemwise (o : Norm) (lg : Bool) (pdim kk : Nat) (clouds : List (List (Pt ℝ)))
+    (pairs : List (List (Pt ℝ) × List (Pt ℝ))) (b : Nat) :
+    (knnFilterBatch topk o pdim kk clouds)[b]? = (clouds[b]?).map (knnFilter topk o pdim kk none) ∧
+    (knnBatch topk o lg kk pairs)[b]? = (pairs[b]?).map (fun p => knn topk o lg kk p.1 p.2) := by
+  simp [knnFilterBatch, knnBatch]
+
+
+/-- **every one of the `N!` orderings**: re-indexing the cloud by ANY permutation `σ` of its positions (not only a
+transposition) gives a `List.Perm` of it — so every `…_perm` / `…_equivariant` theorem above applies to it. -/
+theorem reindex_perm (pts : List (Pt ℝ)) (σ : Equiv.Perm (Fin pts.length)) :
+    (List.ofFn fun i => pts[(σ i).val]).Perm pts := by
+  have h := Equiv.Perm.ofFn_comp_perm σ (fun i : Fin pts.length => pts[i.val])
+  have e : (List.ofFn fun i : Fin pts.length => pts[i.val]) = pts := List.ofFn_getElem
+  rw [e] at h
+  exact h
+
+
+end restated
 
 end PP.Cloud
